@@ -123,7 +123,7 @@ var properties = map[string]*Property{
 			"jti/iat/nbf/exp of issued tokens are normalised before comparing the worlds",
 			"map iteration order cannot be seeded in Go: effectiveness is decided by 24 repetitions per case (a two-entry map disagrees with probability 1-2^-24)",
 		},
-		MustBePositive: []string{"time-sim-c11/effectiveness-checks", "time-sim-c11/allowed:remote-authorizer", "time-sim-c11/allowed:contextualizer", "time-sim-c11/allowed:generic-authn", "time-sim-c11/allowed:introspection", "time-sim-c11/allowed:jwt-finalizer", "time-sim-c11/allowed:client-credentials", "mech-conc/concurrent-evaluations"},
+		MustBePositive: []string{"time-sim-c11/effectiveness-checks", "time-sim-c11/allowed:remote-authorizer", "time-sim-c11/allowed:contextualizer", "time-sim-c11/allowed:generic-authn", "time-sim-c11/allowed:introspection", "time-sim-c11/allowed:jwt-finalizer", "time-sim-c11/allowed:client-credentials", "time-sim-c11/allowed:jwt-authn", "mech-conc/concurrent-evaluations"},
 	},
 	"C01": {
 		ID: "C01",
